@@ -424,4 +424,41 @@ R.add('L8.6', l86, [{}], replay=replay_l86,
       desc='_recv_datagram gate: genuine datagram at offset -32767..32 from an arbitrary window: accepted <=> not received before',
       expect=['a genuine datagram inside the window is accepted exactly when it was not received before'])
 
+
+# ------------------------------------------------------------------ L8.7 the message gate agrees with the window
+def l87(fragment):
+    """_recv_message behind a fresh genuine datagram, message seq at any offset up to the window edge from an
+    arbitrary 256-bit window: flagged duplicate (not delivered) exactly when it was received before.  Messages
+    older than the window are outside this clause (C04/C07 constrain them)."""
+    from . import proto
+    rx, ok, e_, seen, y, payload = proto.msg_gate_world(-32767, 32767, fragment)
+    check(ok is True, 'the fresh datagram is accepted')
+    got = (len(rx.incoming_messages) + len(rx.received_fragments)) == 1
+    if seen is None:
+        # older than the window: it was not "already received inside the window"; in particular a message that was
+        # never received at all (every window state has such a history) must not be flagged duplicate
+        check(got, 'a never-received message older than the window is not flagged duplicate')
+        return
+    check(core.Iff(got, Not(seen)), 'a message inside the window is delivered exactly when it was not received before')
+    check(rx.bitfield_msg.contains(y), 'the message seq is recorded in the window afterwards')
+
+
+def replay_l87(cfg, m):
+    from . import proto
+    r = proto.replay_msg_gate(m, cfg['fragment'])
+    if r is None:
+        return False, 'window state not reached through the API'
+    ok, got, before = r
+    return (got == 1) != (not before) or ok is not True, \
+        'msg_cur=%d e=%d: datagram accepted=%s, message delivered %d time(s), received before=%s' % (m['msg_cur'], m['e'], ok, got, before)
+
+
+R.add('L8.7', l87, [dict(fragment=False), dict(fragment=True)], replay=replay_l87,
+      desc='message gate: a fresh genuine datagram carrying a message (APP / APP_FRAGMENT) at offset -32767..32767 from an '
+           'arbitrary 256-bit message window: inside the window delivered <=> not received before; older than the window '
+           '(never received): not flagged duplicate',
+      expect=['a message inside the window is delivered exactly when it was not received before',
+              'a never-received message older than the window is not flagged duplicate'],
+      bounds='all 65535 window positions, all 2^256 window contents, offsets -32767..32767; payload <= 100 opaque bytes')
+
 get_harness = R.get_harness
